@@ -151,26 +151,60 @@ TAKEN = ("param", "taken_predicates")
 
 
 def rule_definition(ctx):
+    """definition() decided per input shape: evaluated on `forall V (p(T) <-> B)` (V, T, B opaque) the refusals must be the six documented ones,
+    each under exactly its own test, and the acceptance yields the defined predicate; every shape that misses the form is MalformedDefinition"""
+    from .. import leaves
     fx = ctx.facts
     b = fx.fn("definition", impl_self="syntax_tree::fol::sigma_0::Formula")
     site = ctx.site(b)
-    v = sym.Eval(fx, inline_depth=0).function(b)
-    if v[0] != "returns":
-        raise AnalysisGap("definition: no early returns found")
-    rets = v[1]
-    pre = ((("arm", S, OUTER_DEF), True), (("arm", C, INNER_ATOM), True))
-    TF = ("call", "TryFrom::try_from", (("each", ("fieldof", ATOM, "terms")),))
-    conds = {}
-    for cnd, val in rets[:-1]:
-        if val[:2] == ("ctor", "Result::Err"):
-            conds[val[2][0][1][1].split("::")[1]] = (cnd, val)
+    pn = [p_.get("name") for p_ in b["params"]]
+    TK = ("param", pn[1]) if len(pn) == 2 else ("param", "taken_predicates")
+
+    def K(n, **f):
+        return ("ctor", n, tuple(sorted(f.items())))
+    VS, BODY, AT = ("param", "$vs"), ("param", "$B"), ("param", "$atom")
+    atom_f = K("Formula::AtomicFormula", **{"0": K("AtomicFormula::Atom", **{"0": AT})})
+    shape = lambda lhs=atom_f, conn="Equivalence", q="Forall": K("Formula::QuantifiedFormula", quantification=K("Quantification", quantifier=K("Quantifier::" + q), variables=VS),
+                                                                 formula=K("Formula::BinaryFormula", connective=K("BinaryConnective::" + conn), lhs=lhs, rhs=BODY))
+
+    def run(node):
+        v = sym.Eval(fx, inline_depth=0).function(b, [node, TK])
+        rets = v[1] if v[0] == "returns" else ((("fallthrough",), v),)
+        out = []
+        for conds, val in rets:
+            if conds == ("fallthrough",):
+                out.append((None, val))
+                continue
+            ts = []
+            for c, pol in conds:
+                r = leaves.cond_tests(leaves.set_norm(leaves.strip_acc(c)), pol)
+                ts += [t for t in (r or [("dead",)]) if t[0] != "survived"]
+            out.append((frozenset(ts), val))
+        return out
+    good = shape()
+    rets = run(good)
+    UNIQ = leaves.norm(("call", "FromIterator::from_iter", (VS,)))
+    TERMS = ("fieldof", AT, "terms")
+    TF = ("call", "TryFrom::try_from", (("each", TERMS),))
+    PRED = ("call", "Atom::predicate", (AT,))
+    by = {}
+    for ts, val in rets:
+        if ts is not None and val[:2] == ("ctor", "Result::Err"):
+            by[val[2][0][1][1].split("::")[1]] = ts
+    nsub = lambda a_, b_: ("cond", ("op", "Not", ("call", "IndexSet::is_subset", (a_, b_))), True)
+
+    def has(name, pred):
+        ts = by.get(name)
+        return ts is not None and pred(ts)
     checks = {
-        "DuplicatedVariables": lambda c: c[:2] == pre and c[2] == (("bin", "Lt", ("call", "IndexSet::len", (UNIQ,)), ("call", "Vec::len", (VARS,))), True),
-        "TermsInDefinition": lambda c: c[:2] == pre and c[2] == (("arm", TF, "Result::Err(_)"), True),
-        "DefinedPredicateVariableListMismatch": lambda c: c[:2] == pre and c[2][0][:3] == ("bin", "Ne", UNIQ) and "insert" in repr(c[2][0][3]) and repr(TF) in repr(c[2][0][3]) and c[2][1] is True,
-        "TakenPredicate": lambda c: c[:2] == pre and c[2] == (("call", "IndexSet::contains", (TAKEN, PRED)), True),
-        "FreeRhsVariables": lambda c: c[:2] == pre and c[2] == (("call", "Option::is_some", (("call", "Iterator::next", (("call", "IndexSet::difference", (("call", "Formula::free_variables", (RHS,)), UNIQ)),)),)), True),
-        "UndefinedRhsPredicate": lambda c: c[:2] == pre and c[2] == (("iflet", "Option::Some(_)", ("call", "Iterator::next", (("call", "IndexSet::difference", (("call", "Formula::predicates", (RHS,)), TAKEN)),))), True),
+        "DuplicatedVariables": lambda ts: ts == frozenset([("cond", ("bin", "Lt", ("call", "IndexSet::len", (UNIQ,)), ("call", "Vec::len", (VS,))), True)]),
+        "TermsInDefinition": lambda ts: ts == frozenset([("is", TF, "Result::Err")]),
+        "DefinedPredicateVariableListMismatch": lambda ts: len(ts) == 1 and list(ts)[0][0] == "cond" and list(ts)[0][2] is False and list(ts)[0][1][:2] == ("bin", "Eq") and
+        UNIQ in list(ts)[0][1][2:] and any("insert" in repr(x) and repr(TF) in repr(x) for x in list(ts)[0][1][2:]),
+        "TakenPredicate": lambda ts: ts == frozenset([("cond", ("call", "IndexSet::contains", (TK, PRED)), True)]),
+        "FreeRhsVariables": lambda ts: ts in (frozenset([nsub(("call", "Formula::free_variables", (BODY,)), UNIQ)]),
+                                              frozenset([("cond", ("call", "IndexSet::is_subset", (("call", "Formula::free_variables", (BODY,)), UNIQ)), False)])),
+        "UndefinedRhsPredicate": lambda ts: len(ts) == 1 and "Formula::predicates" in repr(ts) and repr(TK) in repr(ts) and ("difference" in repr(ts) or "is_subset" in repr(ts)),
     }
     text = {
         "DuplicatedVariables": "quantified variables are pairwise distinct",
@@ -181,18 +215,21 @@ def rule_definition(ctx):
         "UndefinedRhsPredicate": "the body mentions only earlier (taken) predicates",
     }
     for name, chk in checks.items():
-        c = conds.get(name)
-        ctx.add("TPL", "definition:refuse:" + name, c is not None and len(c[0]) == 3 and chk(c[0]), site, "refused unless " + text[name], construct=c[0][2] if c else None)
-    ctx.add("TPL", "definition:refusals", len(rets) - 1 == 6, site, "six guarded refusals inside the accepted shape (%d)" % (len(rets) - 1))
-    final = rets[-1][1]
-    a1 = arms(final)
-    a2 = arms(a1.get(OUTER_DEF))
-    mal = ERR("MalformedDefinition", ("param", "self"))
-    ctx.add("TPL", "definition:shape", final[1] == S and set(a1) == {OUTER_DEF, "_"} and a1["_"] == mal and set(a2) == {INNER_ATOM, "_"} and a2["_"] == mal, site,
-            "accepted only: forall V (atom <-> body); everything else is MalformedDefinition")
-    ok = a2.get(INNER_ATOM)
-    good = ok is not None and ok[:2] == ("ctor", "Result::Ok") and ok[2][0][1][:2] == ("call", "WithWarnings::preface_warnings") and ok[2][0][1][2][0] == ("call", "WithWarnings::flawless", (PRED,))
-    ctx.add("TPL", "definition:result", good, site, "an accepted definition yields the defined predicate (symbol, arity)")
+        ctx.add("TPL", "definition:refuse:" + name, has(name, chk), site, "refused unless " + text[name] + ", and under that test alone", construct=sorted(map(str, by.get(name, []))) or None)
+    ctx.add("TPL", "definition:refusals", set(by) == set(checks), site, "exactly the six guarded refusals inside the accepted shape: %s" % sorted(by))
+    finals = [val for ts, val in rets if ts is None]
+    okv = finals[0] if len(finals) == 1 else None
+    good_res = okv is not None and okv[:2] == ("ctor", "Result::Ok") and okv[2][0][1][:2] == ("call", "WithWarnings::preface_warnings") and okv[2][0][1][2][0] == ("call", "WithWarnings::flawless", (PRED,))
+    ctx.add("TPL", "definition:result", good_res, site, "an accepted definition yields the defined predicate (symbol, arity)")
+    mal = lambda node: ("ctor", "Result::Err", (("0", ("ctor", "ProofOutlineError::MalformedDefinition", (("0", node),))),))
+    bad = {"implication": shape(conn="Implication"), "exists": shape(q="Exists"), "lhs-not-atom": shape(lhs=K("Formula::AtomicFormula", **{"0": K("AtomicFormula::Truth")})),
+           "unquantified": K("Formula::BinaryFormula", connective=K("BinaryConnective::Equivalence"), lhs=atom_f, rhs=BODY), "atomic": atom_f}
+    wrong = {}
+    for nm, node in bad.items():
+        outs = [val for _, val in run(node)]
+        if outs != [mal(node)]:
+            wrong[nm] = [sym.pretty(x)[:80] for x in outs]
+    ctx.add("TPL", "definition:shape", not wrong, site, "accepted only: forall V (atom <-> body); everything else is MalformedDefinition", construct=wrong or None)
 
 
 def rule_from_specification(ctx):
